@@ -58,6 +58,8 @@ def run(tier):
             chk.count_case([sc["id"]])
         chk.sample({"script": scripts[-1]["id"], "cf": scripts[-1]["cf"], "steps": scripts[-1]["steps"][:16]})
     system_level(chk, sd)
+    # unbounded complement (TLA+ proof system): the counting invariant for every number of callers / clients and every configuration
+    vlib.tlapm(chk, "BreakerProofs")
     # the composed request path (spec/System.tla): limiter ; breaker ; selection ; proxy ; counting
     import system_common, pool_common as _pc
     system_common.run(chk, sd, _pc.build_lbsim(sd), {"C07"}, plans=system_common.QUICK[:1] if tier != "thorough" else system_common.THOROUGH[:5])
